@@ -20,6 +20,16 @@ Theorem C15_all_mutators_fresh :
 Proof. apply forallb_Forall. vm_compute. reflexivity. Qed.
 Print Assumptions C15_all_mutators_fresh.
 
+(* Every public way to obtain a status of one's own - exported functions returning *Status in
+   the repository and in goutil/status, Status.Copy, the exported function-typed variables
+   NewStatus / NewStatusWithStack / NewStatusFromQuery - returns, at every return statement, an
+   object it allocated (or nil); none hands out a predefined or otherwise shared object. *)
+Theorem C15_constructors_fresh :
+  Forall (fun c => ctor_ok c = true) Generated.C15Sites.constructors
+  /\ Generated.C15Sites.constructors <> [].
+Proof. split; [apply forallb_Forall; vm_compute; reflexivity | discriminate]. Qed.
+Print Assumptions C15_constructors_fresh.
+
 (* The reset chain peer.getContext -> handlerCtx.clean -> input.Reset -> m.status = nil, and
    PutMessage -> Reset, is present. *)
 Theorem C15_pooled_messages_reset_status : resets_ok = true.
